@@ -80,9 +80,15 @@ def impl_ctor(grid, direction, nsampling, xi0=0.5, p=40.0, eps=1e-4):
     pm = _pm()
     d = pm.DomainDefinition(*grid)
     s = pm.Signal('x', np.zeros(d.nel))
+    if isinstance(direction, (list, tuple)) and len(direction) >= 2 and all(isinstance(v, (int, float)) for v in direction) \
+            and (len(direction) + int(sum(abs(float(v)) for v in direction) * 8)) % 2 == 0:
+        direction = np.array(direction, dtype=np.float64)      # every other vector direction is handed over as a numpy array
     with warnings.catch_warnings():
         warnings.simplefilter("ignore")
         m = pm.OverhangFilter(s, domain=d, direction=direction, nsampling=nsampling, xi_0=xi0, p=p, eps=eps)
+    if isinstance(direction, np.ndarray) and direction.flags.writeable and direction.size > 1:
+        # the caller re-uses its direction buffer after construction (a sweep over directions): the filter must keep its own
+        direction[...] = np.roll(direction, 1)
     return m, s, d
 
 
@@ -706,6 +712,23 @@ def _recheck(ctx, w):
         if len(letters) != 1 and imp != ("raises", "ValueError"):
             return f"malformed direction string {s!r} is not rejected with ValueError: {imp}"
         return None
+    if op == "vector":
+        v, grid = w["direction"], tuple(w["grid"])
+        flat = [float(t) for t in np.asarray(v, dtype=float).flatten()][:3]
+        flat += [0.0] * (3 - len(flat))
+        nzs = [i for i, t in enumerate(flat) if t != 0.0]
+        if len(nzs) != 1 or (nzs[0] == 2 and grid[2] == 0):
+            return None                       # not a plain axis direction of this domain: judged by the model comparison only
+        r = call_impl(impl_ctor, grid, [t for t in v] if isinstance(v, list) else v, w.get("nsampling"))
+        if r[0] == "err":
+            return f"axis direction vector {v!r} is rejected: {r[2]}"
+        want = [0.0, 0.0, 0.0]
+        want[nzs[0]] = 1.0 if flat[nzs[0]] > 0 else -1.0
+        got = [float(t) for t in r[1][0].direction]
+        if got != want:
+            return (f"direction vector {v!r} (handed over as a numpy array that the caller re-uses afterwards) gives the filter "
+                    f"direction {got}, expected {want}")
+        return None
     if op == "malformed":
         r = call_impl(impl_ctor, tuple(w["grid"]), w["direction"], w["nsampling"])
         return None if r[0] == "err" else "inadmissible configuration accepted"
@@ -735,6 +758,11 @@ def search(ctx, disagreements):
                     why = _recheck(ctx, w)
                     if why:
                         found.append({"what": why, "witness": w})
+            elif d.get("stream", "") == "ctor" and isinstance(c.get("direction"), list) and "grid" in c:
+                w = {"op": "vector", "direction": c["direction"], "grid": list(c["grid"]), "nsampling": c.get("nsampling")}
+                why = _recheck(ctx, w)
+                if why:
+                    found.append({"what": why, "witness": w})
             elif d.get("stream", "").startswith("run") and "x" in c:
                 w = dict(c, op="run", grid=list(c["grid"]))
                 w.pop("seed", None)
